@@ -384,6 +384,7 @@ impl<'a> Tr<'a> {
                         None => Ty::Opaque("Self".into()),
                     },
                     "ManuallyDrop" | "MaybeUninit" if targs.len() == 1 => self.conv_ty(targs[0]),
+                    "PhantomData" => Ty::Unit,
                     _ => {
                         if self.pattern_generics.contains(&name) {
                             Ty::Slice(Box::new(Ty::Int(IntTy::U8)))
@@ -396,9 +397,15 @@ impl<'a> Tr<'a> {
                             let al = al.clone();
                             let params: Vec<String> = al.generics.type_params().map(|p| p.ident.to_string()).collect();
                             let mut map: HashMap<String, Ty> = HashMap::new();
-                            for (p, a) in params.iter().zip(targs.iter()) {
-                                let ta = self.conv_ty(a);
-                                map.insert(p.clone(), ta);
+                            for (i, tp) in al.generics.type_params().enumerate() {
+                                let ta = if i < targs.len() {
+                                    self.conv_ty(targs[i])
+                                } else if let Some(d) = &tp.default {
+                                    self.conv_ty(d)
+                                } else {
+                                    self.sub.fresh()
+                                };
+                                map.insert(tp.ident.to_string(), ta);
                             }
                             let saved = std::mem::take(&mut self.generics);
                             self.generics = params.clone();
